@@ -1576,6 +1576,8 @@ def run(rep: vlib.Reporter, tier: str, seed: int) -> None:
     found |= check_ident(rep, rng, 8000 if big else 1200)
     found |= check_grouping(rep, rng, 20000 if big else 1500)
     found |= check_e2e(rep, rng, 4000 if big else 400)
+    from harness import c15_levels   # which features of ONE split share a step: dependency levels = depth (Model/LevelDepth.v)
+    found |= c15_levels.check_levels(rep, random.Random(seed * 7919 + 1515), 2500 if big else 220, report)
     rep.coverage["trusted_base"] += [
         "hand-written models Model/Options.v (py_eq, canon = _make_hashable, Options operations, merge_options), Model/Identity.v "
         "(eq / hash keys of Feature, Link, Index, SingleFilter), Model/Grouping.v (group_features_by_compute_framework_and_options); "
@@ -1589,7 +1591,11 @@ def run(rep: vlib.Reporter, tier: str, seed: int) -> None:
         "Enum members (hashable) or identity-equal unhashable objects; Feature objects inside options only as child_options[in_features] "
         "(frozenset of Features or a single Feature, in group or context of the child options)",
         "set iteration order: the unit-level grouping tie reads list(set) of the very set passed in; the end-to-end tie accepts any order",
-        "not modelled: _split_features_by_dependency_levels (features of one group that depend on each other), Options.__deepcopy__"]
+        "dependency levels inside one split: the loop is Model/PlannerA.v split_levels (hand-written, also tied by C04's planner "
+        "correspondence), its specification Model/LevelDepth.v depth; the in-group ancestor relation handed to the model is the transitive "
+        "closure of the GENERATED input_features definitions computed by the harness (not read from parent_to_children_mapping); a requested "
+        "feature and the same-named dependency (two Feature objects with the same inputs, hence the same depth) are observed as one name",
+        "not modelled: Options.__deepcopy__"]
     rep.add("rule", "ops: PRNG sequences of <= 12 calls on a real Options object over 3-6 colliding keys (values nested <= 2 levels), state "
                     "and exception compared after every call; values/identities: PRNG pairs where the second object is a re-written "
                     "(reordered dict/set, True for 1, list<->tuple) or slightly mutated copy of the first; grouping: 1-7 real Features over "
@@ -1597,7 +1603,11 @@ def run(rep: vlib.Reporter, tier: str, seed: int) -> None:
                     "1/2^61, Enum member/its name, also inside tuples, lists, sets, nested dicts) x framework x declared type, iteration order read from the set; e2e: run_all on a generated root "
                     "group (<= 5 requested columns) and a derived group whose options are merged into its inputs. non-trivial = an ops "
                     "sequence with both succeeding and raising calls / an equal pair written differently / >1 group with a shared group / "
-                    ">1 calculation call")
+                    ">1 calculation call; levels: run_all (SYNC, pandas) on generated feature groups whose features depend on each other inside the "
+                    "group (chains, diamonds, fan-ins with unequal ancestor counts at equal depth, layered random DAGs over one or two groups, "
+                    "A->B->A interleaving; 30% with context-only variation of the requested features), per feature group the recorded calls vs "
+                    "split_levels / depth in Coq and the property sentence judged per pair of features; non-trivial = a split with at least one "
+                    "in-group dependency (distinct by its ancestor relation)")
     from harness import srctie      # source-text tie (Props/SrcTie.v): Options.get / items / add / add_to_group, the validator and
     found = (not srctie.check(rep)) or found    # Features.merge_options regenerated from the source text = Model/Options.v
     if not pr.ok and not found:
@@ -1610,6 +1620,10 @@ def replay(path: str) -> int:
     r = json.load(open(path))["replay"]
     print(json.dumps(r, indent=1)[:4000])
     kind = r.get("kind")
+    if kind == "levels":
+        from harness import c15_levels
+        c15_levels.replay_case(r)
+        return 0
     if kind == "srctie":
         from harness import srctie
         srctie.replay(r)
